@@ -51,10 +51,6 @@ structure PacketAdaptationExtensionField where
   spliceType : Nat := 0
   deriving Repr, DecidableEq, Inhabited
 
-def jopt {α} (f : α → String) : Option α → String
-  | none => "null"
-  | some a => f a
-
 def PacketAdaptationExtensionField.toJson (e : PacketAdaptationExtensionField) : String :=
   jobj [("DTSNextAccessUnit", jopt ClockReference.toJson e.dtsNextAccessUnit),
     ("HasLegalTimeWindow", jbool e.hasLegalTimeWindow), ("HasPiecewiseRate", jbool e.hasPiecewiseRate),
